@@ -80,7 +80,10 @@ def generate(seed, tier):
                 fmts.append(src_fmt)                       # A -> B -> A
             else:
                 fmts.append(rng.choice(DEST_FORMATS))
-    encs = [rng.choice(["utf-8", "utf-8", "latin-1", "utf-16"]) for _ in fmts]
+    encs = [rng.choice(["utf-8", "utf-8", "latin-1", "utf-16", "cp1252", "iso-8859-15"])
+            for _ in fmts]
+    if src_fmt == "tigerxml" and encs[0] in ("cp1252", "iso-8859-15"):
+        encs[0] = "latin-1"      # the reference TIGER-XML encoder declares three encodings only
     has_disco = "discobrackets" in fmts
     has_bracket_src = any(f in ("brackets", "discobrackets") for f in fmts[:-1])
     sopts = {}
@@ -95,13 +98,16 @@ def generate(seed, tier):
             sopts["replace_parens"] = True
             paren = True
     allow = ["ascii", "xml", "len", "hash"]
-    if all(e != "latin-1" for e in encs):
+    if all(e in ("utf-8", "utf-16") for e in encs):
         allow.append("wide")
     allow.append("latin1")
     if paren:
         allow.append("paren")
-    if "export" not in fmts and "terminals" not in fmts and all(e != "latin-1" for e in encs):
+    if "export" not in fmts and "terminals" not in fmts and \
+            all(e in ("utf-8", "utf-16") for e in encs):
         allow.append("uspace")
+    if "brackets" not in fmts and "discobrackets" in fmts:
+        allow.append("parentok")        # kept verbatim in the token line of discobrackets
     continuous = src_fmt == "brackets"
     k = model.swarm_knobs(rng, tier, allow=allow, continuous=continuous)
     dirmode = rng.random() < 0.2
@@ -137,8 +143,9 @@ def generate(seed, tier):
         kw["gf"] = True
     gz = rng.random() < 0.2 and src_fmt != "tigerxml"
     for tb in tbs:
-        if not rc.encodable(tb, "latin-1") and "latin-1" in encs:
-            encs = ["utf-8" if e == "latin-1" else e for e in encs]
+        for e_ in ("latin-1", "cp1252", "iso-8859-15"):
+            if e_ in encs and not rc.encodable(tb, e_):
+                encs = ["utf-8" if e == e_ else e for e in encs]
     steps = []
     for i in range(nsteps):
         d = gen_dopts(rng, fmts[i + 1])
